@@ -155,11 +155,15 @@ func (c *CodeStore) GetTTL() int64 {
 
 // GetCodeCount counts the number of tokens in the store
 func (c *CodeStore) GetCodeCount() int {
+	c.Lock()
+	defer c.Unlock()
 	return len(c.store)
 }
 
 // DeleteByBookingID uses the booking ID to delete a store entry
 func (c *CodeStore) DeleteByBookingID(bid string) {
+	c.Lock()
+	defer c.Unlock()
 
 	stale := []string{}
 
